@@ -16,20 +16,22 @@ with fspec : Type :=
 | FOpaqueL (g : bytes) (ckh ckf t attr state : Z) (body : bytes)  (* the same in the FFSv3 large form
                                                                      (64-bit size): files of 16 MiB and more *)
 | FSecs (g : bytes) (t attr state : Z) (secs : list sspec)
+| FSecsL (g : bytes) (t attr state : Z) (secs : list sspec)      (* sections adding up to 16 MiB or more:
+                                                                     large form; FFSv3 volumes only *)
 with vspec : Type :=
 | VSpec (zero g : bytes) (attrs reserved rev count bsize : Z)
         (more : list (Z * Z))                   (* block-map entries after the first one *)
-        (xh : option (bytes * bytes * bytes))   (* extended header: name, extra data, bytes up to the
-                                                   next 8-byte boundary *)
+        (xh : option (bytes * bytes * bytes * bytes))   (* extended header: bytes between the header and
+                                                   it, name, extra data, bytes up to the next 8-byte boundary *)
         (files : list fspec) (free : Z).
 
-Definition xh_eo (hl : Z) (x : option (bytes * bytes * bytes)) : Z :=
-  match x with None => 0 | Some _ => hl end.
+Definition xh_eo (hl : Z) (x : option (bytes * bytes * bytes * bytes)) : Z :=
+  match x with None => 0 | Some (pre, _, _, _) => hl + zlen pre end.
 Definition blockb (cs : Z * Z) : bool :=
   (0 <=? fst cs) && (fst cs <? 2 ^ 32) && (0 <=? snd cs) && (snd cs <? 2 ^ 32) &&
   negb ((fst cs =? 0) && (snd cs =? 0)).
-Definition xh_bytes (x : option (bytes * bytes * bytes)) : bytes :=
-  match x with None => [] | Some (n, e, gp) => ext_bytes n e gp end.
+Definition xh_bytes (x : option (bytes * bytes * bytes * bytes)) : bytes :=
+  match x with None => [] | Some (pre, n, e, gp) => pre ++ ext_bytes n e gp end.
 
 Fixpoint emit_s (s : sspec) : bytes :=
   match s with
@@ -45,6 +47,7 @@ with emit_f (f : fspec) : bytes :=
   | FOpaque g ckh ckf t attr state body => raw_file_bytes g ckh ckf t attr state body
   | FOpaqueL g ckh ckf t attr state body => raw_file_bytes_large g ckh ckf t attr state body
   | FSecs g t attr state secs => file_bytes g t attr state (sections_bytes (map emit_s secs))
+  | FSecsL g t attr state secs => file_bytes_large g t attr state (sections_bytes (map emit_s secs))
   end
 with emit_v (v : vspec) : bytes :=
   match v with
@@ -52,6 +55,9 @@ with emit_v (v : vspec) : bytes :=
     vol_bytes_x zero g attrs reserved rev count bsize more (xh_eo (fv_hlen more) xh) (xh_bytes xh)
                 (map emit_f files) free
   end.
+
+(* files whose re-assembly raises the volume's "use FFSv3" flag *)
+Definition is_big (f : fspec) : bool := match f with FSecsL _ _ _ _ _ => true | _ => false end.
 
 (* a region: (padding, volume) pairs and trailing padding *)
 Definition emit_region (l : list (bytes * vspec)) (trail : bytes) : bytes :=
@@ -62,11 +68,13 @@ Variable u2s s2u : bytes -> bytes.
 
 Definition in_range (lo x hi : Z) : Prop := lo <= x < hi.
 
-Definition wf_xh (hl : Z) (x : option (bytes * bytes * bytes)) : Prop :=
+Definition wf_xh (hl : Z) (x : option (bytes * bytes * bytes * bytes)) : Prop :=
   match x with
   | None => True
-  | Some (n, e, gp) => zlen n = 16 /\ bytes_ok n = true /\ bytes_ok e = true /\ bytes_ok gp = true /\
-                       20 + zlen e < 2 ^ 32 /\ zlen gp < 8 /\ (hl + zlen (ext_bytes n e gp)) mod 8 = 0
+  | Some (pre, n, e, gp) =>
+      bytes_ok pre = true /\ zlen n = 16 /\ bytes_ok n = true /\ bytes_ok e = true /\ bytes_ok gp = true /\
+      20 + zlen e < 2 ^ 32 /\ zlen gp < 8 /\ hl + zlen pre < 65536 /\ 0 < zlen e + zlen gp /\
+      (hl + zlen (pre ++ ext_bytes n e gp)) mod 8 = 0
   end.
 
 (* well-formedness: exactly the side conditions of the production rules *)
@@ -102,6 +110,12 @@ with wf_f (f : fspec) : Prop :=
       in_range 0 state 256 /\ Z.land attr 1 = 0 /\ supported_file t = true /\ secs <> [] /\
       fold_right and True (map wf_s secs) /\
       24 + zlen (sections_bytes (map emit_s secs)) < 16777215
+  | FSecsL g t attr state secs =>
+      zlen g = 16 /\ bytes_ok g = true /\ in_range 0 t 256 /\ in_range 0 attr 256 /\
+      in_range 0 state 256 /\ Z.land attr 1 = 1 /\ supported_file t = true /\ secs <> [] /\
+      fold_right and True (map wf_s secs) /\
+      16777215 <= 24 + zlen (sections_bytes (map emit_s secs)) /\
+      32 + zlen (sections_bytes (map emit_s secs)) < 2 ^ 64 - 1
   end
 with wf_v (v : vspec) : Prop :=
   match v with
@@ -113,7 +127,8 @@ with wf_v (v : vspec) : Prop :=
       fold_right and True (map wf_f files) /\
       files_aligned (fv_hlen more + zlen (xh_bytes xh)) (map emit_f files) = true /\ 0 <= free /\
       fv_hlen more + zlen (xh_bytes xh) + zlen (flay (map emit_f files)) + free < 2 ^ 64 /\
-      wf_xh (fv_hlen more) xh /\ forallb blockb more = true /\ fv_hlen more < 65536
+      wf_xh (fv_hlen more) xh /\ forallb blockb more = true /\ fv_hlen more < 65536 /\
+      (existsb is_big files = true -> g = FFS3)
   end.
 
 (* a region: every padding 8-aligned and free of scan hits up to the volume's signature, at least
@@ -135,12 +150,13 @@ Variable u2s s2u : bytes -> bytes.
 
 Definition rng (lo x hi : Z) : bool := (lo <=? x) && (x <? hi).
 
-Definition wfb_xh (hl : Z) (x : option (bytes * bytes * bytes)) : bool :=
+Definition wfb_xh (hl : Z) (x : option (bytes * bytes * bytes * bytes)) : bool :=
   match x with
   | None => true
-  | Some (n, e, gp) => (zlen n =? 16) && bytes_ok n && bytes_ok e && bytes_ok gp &&
-                       (20 + zlen e <? 2 ^ 32) && (zlen gp <? 8) &&
-                       ((hl + zlen (ext_bytes n e gp)) mod 8 =? 0)
+  | Some (pre, n, e, gp) =>
+      bytes_ok pre && (zlen n =? 16) && bytes_ok n && bytes_ok e && bytes_ok gp &&
+      (20 + zlen e <? 2 ^ 32) && (zlen gp <? 8) && (hl + zlen pre <? 65536) && (0 <? zlen e + zlen gp) &&
+      ((hl + zlen (pre ++ ext_bytes n e gp)) mod 8 =? 0)
   end.
 
 Fixpoint wfb_s (s : sspec) : bool :=
@@ -173,6 +189,11 @@ with wfb_f (f : fspec) : bool :=
       (zlen g =? 16) && bytes_ok g && rng 0 t 256 && rng 0 attr 256 && rng 0 state 256 &&
       (Z.land attr 1 =? 0) && supported_file t && (match secs with [] => false | _ => true end) &&
       forallb wfb_s secs && (24 + zlen (sections_bytes (map emit_s secs)) <? 16777215)
+  | FSecsL g t attr state secs =>
+      (zlen g =? 16) && bytes_ok g && rng 0 t 256 && rng 0 attr 256 && rng 0 state 256 &&
+      (Z.land attr 1 =? 1) && supported_file t && (match secs with [] => false | _ => true end) &&
+      forallb wfb_s secs && (16777215 <=? 24 + zlen (sections_bytes (map emit_s secs))) &&
+      (32 + zlen (sections_bytes (map emit_s secs)) <? 2 ^ 64 - 1)
   end
 with wfb_v (v : vspec) : bool :=
   match v with
@@ -183,7 +204,8 @@ with wfb_v (v : vspec) : bool :=
       forallb wfb_f files && files_aligned (fv_hlen more + zlen (xh_bytes xh)) (map emit_f files) &&
       (0 <=? free) &&
       (fv_hlen more + zlen (xh_bytes xh) + zlen (flay (map emit_f files)) + free <? 2 ^ 64) &&
-      wfb_xh (fv_hlen more) xh && forallb blockb more && (fv_hlen more <? 65536)
+      wfb_xh (fv_hlen more) xh && forallb blockb more && (fv_hlen more <? 65536) &&
+      (negb (existsb is_big files) || bytes_eqb g FFS3)
   end.
 
 Definition wfb_region (l : list (bytes * vspec)) (trail : bytes) : bool :=
